@@ -121,6 +121,8 @@ def main():
     ops = [("accept-identity", lambda q: q.accept(ident)),
            ("apply-identity", lambda q: q.apply(ident)),
            ("replace-absent", lambda q: q.replace("f", "zz-absent", "yy")),
+           # a term of ANOTHER field with a text that does occur in the query is absent too
+           ("replace-other-field", lambda q: q.replace("nofield", "aa", "dd").replace("g", "bb", "cc").replace("n", "aa", "bb")),
            ("with_boost", lambda q: q.with_boost(2.5)),
            ("copy", lambda q: copy.copy(q)),
            ("deepcopy", lambda q: copy.deepcopy(q)),
